@@ -81,4 +81,10 @@ def nameSuffixes : List String := [".pb.fm.go", "_{{.Message.Desc.Name | string 
     receiver-modifying method (Store, Lock, Do, …) called on it -/
 def generatorGlobalsWritten : List String := []
 
+/-- the options of the generator: (name, kind) of every `flags.<Kind>Var(&target, "name", …)` call in the non-test Go files of cmd/protoc-gen-fastmarshal (kind `value`: a flag.Value implementation) -/
+def generatorOptions : List (String × String) := [("apiversion", "value"), ("dest", "string"), ("debug", "bool"), ("filepermessage", "bool"), ("specialname", "value"), ("enableunsafedecode", "bool")]
+
+/-- mentions of `Reserved` (descriptor accessors ReservedRanges / ReservedNames) in the non-test Go files of the generator and of `reserved` in its three templates -/
+def reservedMentions : Nat := 0
+
 end Csproto.Generated
